@@ -35,6 +35,7 @@ def py(v):
     if t == "i": return int(v[1])
     if t == "n": return None
     if t == "o": return OTHER
+    if t == "f": return float(v[1])          # a float numerically equal to an int: of no option type (Atom.other in the model)
     if t == "q": return [py(a) for a in v[1]]
     raise ValueError(v)
 
@@ -71,6 +72,7 @@ def wire_val(v):
     if v[0] == "b": return "b1" if v[1] else "b0"
     if v[0] == "s": return "s" + hexs(v[1])
     if v[0] == "i": return "i%d" % int(v[1])
+    if v[0] == "f": return "o"
     return v[0]
 
 
@@ -260,10 +262,12 @@ class Check(PropertyCheck):
     # ---------------------------------------------------------------- generator
     def _val(self, rng, ty, ok=True):
         if not ok:
-            wrong = {"bool": ["s", "i", "n", "o", "q"], "str": ["b", "i", "n", "o", "q"], "int": ["s", "n", "o", "q"],
-                     "optstr": ["b", "i", "o", "q"], "optint": ["s", "o", "q"], "seqstr": ["s", "n", "o", "qbad", "b"]}[ty]
+            wrong = {"bool": ["s", "i", "n", "o", "q", "f", "i01"], "str": ["b", "i", "n", "o", "q"], "int": ["s", "n", "o", "q", "f"],
+                     "optstr": ["b", "i", "o", "q"], "optint": ["s", "o", "q", "f"], "seqstr": ["s", "n", "o", "qbad", "b"]}[ty]
             k = rng.pick(wrong)
             if k == "qbad": return ["q", [["s", "a"], rng.pick([["i", 1], ["o"], ["n"], ["b", True]])]]
+            if k == "f": return ["f", rng.pick([0, 1, 5, 7, -1])]            # numerically equal to pool ints / bools
+            if k == "i01": return ["i", rng.pick([0, 1])]                     # == False / True
             return self._raw(rng, k)
         if ty == "bool": return ["b", rng.chance(0.5)]
         if ty == "str": return self._raw(rng, "s")
@@ -388,6 +392,15 @@ class Check(PropertyCheck):
         for s in STRS:
             for ty, v in (("str", ["s", s]), ("optstr", ["s", s]), ("seqstr", ["q", [["s", s], ["s", "x"]]])):
                 yield {"ops": [{"op": "add", "n": 0, "ty": ty, "v": self._dflt(ty)}, {"op": "upd", "kw": [[0, v]]}, {"op": "save"}]}
+        # a well-typed value first, then values of ANOTHER type that compare (and hash) equal to it — 1 == True == 1.0 — incl. the
+        # default: each must be judged by its own type (all cases of a run share one process, hence any process-wide cache)
+        for ty, good, twins in (("int", ["i", 1], [["f", 1]]), ("int", ["i", 0], [["f", 0]]), ("optint", ["i", 5], [["f", 5]]),
+                                ("bool", ["b", True], [["i", 1], ["f", 1]]), ("bool", ["b", False], [["i", 0], ["f", 0]]),
+                                ("int", ["b", True], [["f", 1]]), ("optint", ["n"], [["f", 0]])):
+            for dflt in (good, self._dflt2(ty)):
+                for tw in twins:
+                    yield {"ops": [{"op": "add", "n": 0, "ty": ty, "v": dflt}, {"op": "upd", "kw": [[0, good]]}, {"op": "upd", "kw": [[0, tw]]},
+                                   {"op": "updk", "kw": [[0, tw]]}, {"op": "upd", "kw": [[0, good]]}, {"op": "updd", "kw": [[0, tw], [9, tw]]}, {"op": "save"}]}
         # every spec string against every option type, directly and through the deferred path
         decl = [{"op": "add", "n": i, "ty": ty, "v": self._dflt2(ty)} for i, ty in enumerate(TYS)]
         for sp in SPECS:
